@@ -514,6 +514,12 @@ func (obj *DenseReal64VectorJointIterator) Ok() bool {
          !(obj.s2 == nil || obj.s2.GetFloat64() == 0.0)
 }
 func (obj *DenseReal64VectorJointIterator) Next() {
+  // skip positions where all operands are zero; stop when all
+  // iterators are exhausted
+  for obj.next() && !obj.Ok() {
+  }
+}
+func (obj *DenseReal64VectorJointIterator) next() bool {
   ok1 := obj.it1.Ok()
   ok2 := obj.it2.Ok()
   obj.s1 = nil
@@ -540,6 +546,7 @@ func (obj *DenseReal64VectorJointIterator) Next() {
   } else {
     obj.s2 = ConstFloat64(0.0)
   }
+  return ok1 || ok2
 }
 func (obj *DenseReal64VectorJointIterator) GetConst() (ConstScalar, ConstScalar) {
   return obj.GET()
